@@ -31,7 +31,7 @@
      k = "custom"     kids = <<x>> : an instance of the caller's own class, which the caller's json_default turns into
                       {"x": x} before deferring to eliot's json_default
    Outcomes are uniform records [o, keys, kids]:
-     same | exact_or_rejected | str | iso | complex | unspec   (leaves)
+     same | exact_or_rejected | str | iso | complex | encoded | unspec   (leaves)
      list(kids) | dict(keys, kids) | bag(kids: a list in any order)                                                  *)
 EXTENDS Naturals, Sequences, FiniteSets, TLC
 
@@ -65,9 +65,12 @@ RichIso == {"date", "time", "datetime", "time_aware"}                          \
                                                                                \* F10 (5-digit fraction) is a WITNESS of class time
 RichComplex == {"complex"}
 RichUnlisted == {"uuid", "enum"}                                               \* encoded today; not in the statement
+CustomLeaves == {"custom_null", "custom_falsy"}   \* caller's own types whose encoding BY THE CALLER'S json_default is JSON null,
+                                                  \* resp. a falsy non-null value (0, "", [], false, 0.0, {}): "returned None" or
+                                                  \* "returned something falsy" must not be mistaken for "not handled"
 Unencodable == {"txt_surrogate", "bytes_utf8", "bytes_bad", "unsupported", "too_deep"}   \* too_deep: nested >= 254
 LeafClasses == NativeExact \cup IntU64 \cup IntBeyond \cup FltNonFinite \cup RichStr \cup RichIso \cup RichComplex
-               \cup RichUnlisted \cup Unencodable
+               \cup RichUnlisted \cup Unencodable \cup CustomLeaves
 
 KeysText == {"k_ascii", "k_ctrl", "k_astral", "k_empty"}
 KeysBad == {"k_int", "k_none", "k_tuple", "k_surrogate"}
@@ -121,8 +124,9 @@ Height(v) == IF v.kids = <<>> THEN (IF v.k = "leaf" THEN 0 ELSE 1)
 
 ---------------------------------------------------------------------------------------------------------------------
 (* NORMATIVE: the abstract content of the line *)
-LeafOutcome(c) ==
+LeafOutcome(c, d) ==
     IF c \in NativeExact THEN "same"
+    ELSE IF c \in CustomLeaves /\ d # "eliot" THEN "encoded"      \* the line holds exactly what the caller's function returned
     ELSE IF c \in IntU64 THEN "exact_or_rejected"
     ELSE IF c \in RichStr THEN "str"
     ELSE IF c \in RichIso THEN "iso"
@@ -133,7 +137,7 @@ LeafOutcome(c) ==
 RECURSIVE Enc(_, _)
 Enc(v, d) ==
     LET kidsOut == [i \in DOMAIN v.kids |-> Enc(v.kids[i], d)] IN
-    CASE v.k = "leaf" -> OL(LeafOutcome(v.c))
+    CASE v.k = "leaf" -> OL(LeafOutcome(v.c, d))
       [] v.k = "list" -> O("list", <<>>, kidsOut)
       [] v.k = "dict" -> IF \A i \in DOMAIN v.keys : v.keys[i] \in KeysText THEN O("dict", v.keys, kidsOut)
                          ELSE OL("unspec")
@@ -155,7 +159,7 @@ MustWrite(v, mode, d) == ~MayReject(Expected(v, mode, d))
 (* the statement's domain, transcribed independently of Enc *)
 RECURSIVE InDomain(_, _)
 InDomain(v, d) ==
-    CASE v.k = "leaf" -> v.c \in Promised
+    CASE v.k = "leaf" -> v.c \in Promised \/ (v.c \in CustomLeaves /\ d # "eliot")
       [] v.k = "list" -> \A i \in DOMAIN v.kids : InDomain(v.kids[i], d)
       [] v.k = "dict" -> /\ \A i \in DOMAIN v.keys : v.keys[i] \in KeysText
                          /\ \A i \in DOMAIN v.kids : InDomain(v.kids[i], d)
@@ -167,6 +171,7 @@ InDomain(v, d) ==
 RECURSIVE RejectsNow(_, _)
 RejectsNow(v, d) ==
     \/ v.k = "leaf" /\ v.c \in RejectedNowLeaves
+    \/ v.k = "leaf" /\ v.c \in CustomLeaves /\ d = "eliot"
     \/ v.k = "dict" /\ \E i \in DOMAIN v.keys : v.keys[i] \in KeysBad
     \/ v.k = "frozenset"
     \/ v.k = "custom" /\ d = "eliot"
@@ -180,7 +185,7 @@ HasKind(v, k) == v.k = k \/ \E i \in DOMAIN v.kids : HasKind(v.kids[i], k)
 
 ---------------------------------------------------------------------------------------------------------------------
 (* well-formed outcomes *)
-LeafTags == {"same", "exact_or_rejected", "str", "iso", "complex", "unspec"}
+LeafTags == {"same", "exact_or_rejected", "str", "iso", "complex", "encoded", "unspec"}
 RECURSIVE WellFormed(_)
 WellFormed(o) ==
     /\ DOMAIN o = {"o", "keys", "kids"}
@@ -231,7 +236,7 @@ C10_DomainIffMustWrite ==                  \* a line is mandatory exactly on the
 
 C10_DefaultExtends ==                      \* the caller's json_default only ADDS the custom type; encoder= is the same
     /\ Expected(case.v, case.mode, "caller") = Expected(case.v, case.mode, "encoder")
-    /\ ~HasKind(case.v, "custom") => Expected(case.v, case.mode, "eliot") = Expected(case.v, case.mode, "caller")
+    /\ (~HasKind(case.v, "custom") /\ ~HasClass(case.v, CustomLeaves)) => Expected(case.v, case.mode, "eliot") = Expected(case.v, case.mode, "caller")
     /\ MustWrite(case.v, case.mode, "eliot") => MustWrite(case.v, case.mode, "caller")
 
 C10_ImplWithinStatement ==                 \* what the code refuses today is outside the promise, known findings apart
